@@ -3,7 +3,7 @@
 import json, subprocess
 
 HOOK_COMMITS = ["87ef81a", "e38926a"]
-FIX_COMMITS = ["5be8c90", "47e4ff7", "7177454", "0497b13", "b9b128e", "7b0b11e", "20cde3f", "58dba13", "6809fe1", "4e4e028"]
+FIX_COMMITS = ["5be8c90", "47e4ff7", "7177454", "0497b13", "b9b128e", "7b0b11e", "20cde3f", "58dba13", "6809fe1", "4e4e028", "7f68510", "8dc1ca1"]
 
 # id -> (technique, level text, level note, design ref)
 CLAIMED = {
